@@ -168,7 +168,7 @@ def run(tier, seed):
     for k, (d, b, (res, err)) in enumerate(zip(docs, blobs, outs)):
         ck.count()
         for f in d['features']: feats[f] = feats.get(f, 0) + 1
-        case = {'doc': {x: d[x] for x in ('stories', 'comments', 'next_uid', 'rpr_table')}}
+        case = {'doc': A.doc_core(d)}
         if err: ck.violation('oracle', case, 'extract_text_from_stream raised ' + err); continue
         raw, clean = res
         fail, known = oracle(d, b, raw, clean)
